@@ -44,7 +44,10 @@ def run(tier, seed):
                 # a partition constraint: the numbers themselves when they sum to the total, else [total]
                 if sum(u["numbers"]) == u["total"] and len(u["numbers"]) >= 2:
                     v = dict(base); v["partition_constraints"] = [list(u["numbers"])]; v["pcs"] = [list(u["numbers"])]; variants.append(v)
-            for v in (variants if tier != "quick" else variants[:2] + rng.sample(variants[2:], min(1, len(variants) - 2))):
+            # the same numbers as a LIST with repeated values (the answer depends on the set of values only)
+            rep = list(u["numbers"]) + [rng.choice(u["numbers"]) for _ in range(rng.randint(1, 4))]
+            v = dict(base); v["numbers"] = rep; v["remove_complement_values"] = False; variants.insert(2, v)
+            for v in (variants if tier != "quick" else variants[:3] + rng.sample(variants[3:], min(1, len(variants) - 3))):
                 insts.append(v)
         else:
             b = {"cls": "MinSetCover", "universe": u["universe"], "subsets": u["subsets"],
